@@ -18,6 +18,7 @@ ASSUMPTIONS = [
     "calls that are not peer-influenced (logging, selector (un)registration, thread start, accept, pool bookkeeping) do not raise on behalf of a peer",
     "without COMMTIMEOUT a peer that sends a prefix and then stays silent WITHOUT disconnecting legitimately blocks the multiplex server (and the thread server's refusal path): there every truncation is followed by a close or reset; with COMMTIMEOUT configured a stalled peer must not block anybody beyond the timeout (stall scenarios, 3 s timeout)",
     "non-termination (a handler that spins, a read that never times out) is outside the Coq model (it quantifies over exceptions that surface); it is the oracle's watchdog that reports daemon-unresponsive / worker-stranded / accept-loop-blocked",
+    "Daemon._housekeeping (item-stream cleanup; runs inside the multiplex request loop under no containing handler, and in the thread server's Housekeeper thread) does not raise: assumed by the theorems, exercised by the stream scenarios (small / zero ITER_STREAM_LIFETIME and ITER_STREAM_LINGER), a violation shows as request-loop-died:multiplex / housekeeper-died:thread",
     "worker hand-over interleavings in general are C18's subject; here one window (accept exactly while a worker returns to the pool) is forced with hooks in the harness process",
     "an exception is identified by the mro of its class; BaseException subclasses outside Exception (KeyboardInterrupt, SystemExit) are outside the property",
     "the call skeleton (which function calls which, what a function does after one of its handlers ran) is hand-modelled and tied to the code by the correspondence run; handler tables, call enclosure, reply-handler class tests and hierarchy are regenerated from the source",
@@ -46,6 +47,11 @@ STALL_CONFIGS = [
 ]
 
 
+# item streams: [ITER_STREAM_LIFETIME, ITER_STREAM_LINGER] small / zero, housekeeping every 0.4 s (and after every multiplex event)
+STREAM_CONFIGS = [{"server": st, "pool": 4, "timeout": None, "stream": lg, "poll": 0.4}
+                  for st in ("multiplex", "thread") for lg in ([0.25, 0.25], [0.25, 0.0], [0.0, 0.25])]
+
+
 # ---------------------------------------------------------------- Gallina printers
 def c_str(s):
     return '"%s"' % s
@@ -58,7 +64,8 @@ def c_fault(f):
 
 
 def c_event(e):
-    kind = "EConnect" if e["connect"] else "(ERequest {| q_oneway := %s; q_callback := %s |})" % (cbool(e["oneway"]), cbool(e["callback"]))
+    kind = "EConnect" if e["connect"] else "(ERequest {| q_oneway := %s; q_callback := %s; q_stream := %s |})" % (
+        cbool(e["oneway"]), cbool(e["callback"]), cbool(e.get("stream", False)))
     return "{| e_conn := %s; e_kind := %s; e_script := %s |}" % (cnat(e["conn"]), kind, clist([c_fault(f) for f in e["faults"]]))
 
 
@@ -177,12 +184,41 @@ def stall_scenarios(rng, cfg, tier_thorough):
     return out
 
 
+def stream_scenarios(rng, cfg, tier_thorough):
+    """a hostile client opens 1..n item streams (calls a generator-returning method), consumes 0..k items, then disconnects /
+    resets / stays; nobody talks until lifetime and linger have expired and housekeeping has run; then the usual checks"""
+    from tools.lib import c05drv as d
+    out = []
+    variants = [(1, 0, "close"), (1, 0, "reset"), (2, 1, "close"), (1, 2, "stay"), (3, 0, "close"), (1, 9, "close")]
+    if not tier_thorough:
+        variants = variants[:2] + rng.sample(variants[2:], 1)
+    lg = max(cfg["stream"]) + 0.2
+    for nstreams, consume, end in variants:
+        steps = [["open", 0], ["send", 0, d.base_connect(rng, serializer="serpent").hex(), "connect:valid"], ["read", 0]]
+        for _ in range(nstreams):
+            steps += [["send", 0, d.base_invoke(rng, "numbers", (rng.choice([0, 3, 5]),), serializer="serpent").hex(), "invoke:stream"], ["read", 0]]
+            if consume:
+                steps.append(["snext", 0, consume])
+        if rng.random() < 0.3:
+            steps.append(["sclose", 0])
+        if end != "stay":
+            steps.append([end, 0])
+        # both expiry moments pass while nobody talks; then one housekeeping pass sees them (multiplex: the witness call triggers
+        # one at the latest; thread server: the Housekeeper thread's next round)
+        steps += [["idle", lg], ["wcall", rng.randrange(1000)], ["idle", cfg["poll"] + 0.15 if cfg["server"] == "thread" else 0.05],
+                  ["wcall", rng.randrange(1000)]]
+        out.append({"cfg": cfg, "steps": steps})
+    return out
+
+
 def make_scenarios(ctx, n_random):
     from tools.lib import c05drv as d
     rng = ctx.rng
     scs = []
     for cfg in STALL_CONFIGS:
         scs += stall_scenarios(rng, cfg, not ctx.quick)
+    for cfg in STREAM_CONFIGS:
+        scs += stream_scenarios(rng, cfg, not ctx.quick)
     for cfg in CONFIGS:
         scs += targeted(rng, cfg, not ctx.quick)
         if cfg["server"] == "thread" and cfg["pool"] > 1:
@@ -230,8 +266,8 @@ def execute(ctx, scenarios, info, want_case=True):
     chunks = []
     for key, items in by_cfg.items():
         cfg = json.loads(key)
-        slow = cfg in STALL_CONFIGS
-        size = 2 if slow else max(10, (len(items) + 3) // 4)
+        slow = cfg in STALL_CONFIGS or cfg in STREAM_CONFIGS
+        size = (2 if cfg in STALL_CONFIGS else 3) if slow else max(10, (len(items) + 3) // 4)
         for k in range(0, len(items), size):
             chunk = (ctx.tree, info, cfg, items[k:k + size], want_case)
             if slow:
@@ -290,6 +326,10 @@ def collect(ctx, res, scenarios, results, model_ok):
         lits.append(c_case(case))
         kept.append((sc, case))
     res.extra["points_reached"] = dict(sorted(points.items()))
+    info = gen_info(ctx)
+    if info:
+        res.extra["housekeeping_calls"] = {f: [{"line": a["line"], "protecting_site": a["site"]} for a in info["funcs"][f]["anchors"]
+                                               if a["kind"] == "KHousekeeping"] for f in ("FMuxEvents", "FMuxLoop")}
     if model_ok and lits:
         for idx in vlib.run_cases(ctx, "c", IMPORTS, "case", "check_case", lits, shard=150):
             sc, case = kept[idx]
